@@ -15,9 +15,11 @@ use_repo()
 
 PARAMS = {
     "quick": [dict(orders="{0, 1, 2}", maxdim=2, alltargets="FALSE"),
-              dict(orders="{3}", maxdim=2, alltargets="TRUE", simulate=500)],
+              dict(orders="{3}", maxdim=2, alltargets="TRUE", simulate=500),
+              dict(orders="{1, 2}", maxdim=12, alltargets="FALSE", simulate=40, maxentries=4)],
     "thorough": [dict(orders="{0, 1, 2}", maxdim=3, alltargets="TRUE"), dict(orders="{3}", maxdim=2, alltargets="FALSE"),
-                 dict(orders="{4}", maxdim=2, alltargets="TRUE", simulate=3000)],
+                 dict(orders="{4}", maxdim=2, alltargets="TRUE", simulate=3000),
+                 dict(orders="{1, 2, 3}", maxdim=12, alltargets="FALSE", simulate=400, maxentries=5)],
 }
 
 
@@ -120,7 +122,7 @@ def run(tier, seed):
         d = workdir("c09")
         cfg = d / "TensorApi.cfg"
         cfg.write_text(f"SPECIFICATION Spec\nCONSTANTS\n  MaxOrder = 4\n  MaxDim = {P['maxdim']}\n  Orders = {P['orders']}\n"
-                       f"  AllTargets = {P['alltargets']}\nINVARIANT Emit\nINVARIANT Consistent\nCHECK_DEADLOCK FALSE\n")
+                       f"  AllTargets = {P['alltargets']}\n  MaxEntries = {P.get('maxentries', 99)}\nINVARIANT Emit\nINVARIANT Consistent\nCHECK_DEADLOCK FALSE\n")
         if P.get("simulate"):
             exhaustive = False
             r = run_tlc("TensorApi", str(cfg), timeout=3000, simulate=f"num={P['simulate']}", depth=10, seed=seed + 1, workers=1)
